@@ -85,6 +85,10 @@ def gen_edit(rng, kinds):
     elif k == "style_item":
         a = {"sel": rng.choice(["c1", "p", "encc", "s0", "default", "zz"]), "k": rng.choice(["color", "italics", "text-align"]),
              "v": rng.choice(["blue", True, "left"])}
+        if rng.random() < 0.7:
+            a["sel_idx"] = rng.randrange(8)
+    elif k in ("touch_styles", "touch_nodes", "touch_lists"):
+        a = {"tag": "#" + str(rng.randrange(1000))}
     elif k in ("cap_style_item", "node_style_item"):
         kk, vv = rng.choice(docs.STYLE_KEYS)
         a.update({"k": kk, "v": vv})
@@ -113,7 +117,7 @@ def gen_edit(rng, kinds):
 
 EDIT_KINDS = ["add_style", "set_styles", "style_item", "cap_style_item", "node_style_item", "cap_time", "node_content",
               "nodes_append", "nodes_pop", "caps_append", "caps_pop", "set_captions", "set_layout", "adjust_timing",
-              "merge_concurrent"]
+              "merge_concurrent", "touch_styles", "touch_nodes", "touch_lists", "touch_styles", "touch_nodes", "touch_lists"]
 
 
 # ------------------------------------------------------------------------ history
@@ -132,6 +136,8 @@ class Gen:
         rng = self.rng
         r = rng.random()
         prev = self.last_doc_of_slot.get(slot)
+        if prev is None:
+            prev = self.last_doc_of_slot.get("fmt:" + fmt)   # the same document read again by another reader object
         if prev is not None and r < knobs["p_repeat_doc"]:
             return prev
         if r < knobs["p_corpus"]:
@@ -238,6 +244,7 @@ def gen_plan(run_seed, prop, tier="quick", faults=True):
                       "via": slot or "fresh", "doc": doc, "out": h, "session": s}
                 if slot:
                     g.last_doc_of_slot[slot] = doc
+                g.last_doc_of_slot["fmt:" + fmt] = doc
                 if rng.random() < knobs["p_conv"] and not op["call"]:
                     op["conv"] = "c%d" % s
                 g.hint[h] = {"fmt": fmt, "langs": ["en-US", "en", "und"] + ([op["call"]["lang"]] if "lang" in op["call"] else [])}
